@@ -10,6 +10,7 @@ import (
 	"io/ioutil"
 	"os"
 	"path/filepath"
+	"reflect"
 	"regexp"
 	"sync"
 	"time"
@@ -359,7 +360,17 @@ func (db *DB) get(in Object) (out Object, err error) {
 	}
 
 	path = filepath.Join(db.oDir(in), s.filename(in))
-	err = unmarshalJsonFile(path, in)
+	// the file is decoded in a new object, otherwise what is read is merged
+	// with what the object passed by the caller already contains (maps keep
+	// their other keys, pointers keep the fields missing from the file)
+	fresh := reflect.New(typeof(in))
+	if err = unmarshalJsonFile(path, fresh.Interface()); err == nil {
+		if v := reflect.ValueOf(in); v.Kind() == reflect.Ptr && !v.IsNil() {
+			uuid := in.UUID()
+			v.Elem().Set(fresh.Elem())
+			in.Initialize(uuid)
+		}
+	}
 	out = in
 
 	// an object which could not be read must not be cached
